@@ -1,7 +1,8 @@
 (* Property C09 — pending transactions are tracked exactly: flagged, not reused, settled once.
-   Only statements here; proofs are in Ledger/PendingProofs.v and Ledger/PendingProofs3.v (the index of
+   Only statements here; proofs are in Ledger/PendingProofs.v, Ledger/PendingProofs3.v (the index of
    pending spenders is complete for wallet coins along every history: rollback keeps registrations, the
-   conflict clause for reachable states).
+   conflict clause for reachable states) and Ledger/PendingProofs4.v (the conflict clause stated with the coin
+   of the store the mined transaction spends, descendants of any depth, the reorganisation as one statement).
    Model: Ledger/Pending.v (filterTx for unconfirmed transactions, insertMemPoolTx, addUnminedCredits,
    insertUnminedInputs, insertMinedTx's settle part, removeDoubleSpends, removeConflict, Rollback's move
    back to the unmined bucket, deleteUnminedInputs, the handler's volatile set, the flag and selection
@@ -19,8 +20,8 @@
 From Coq Require Import List ZArith NArith Bool.
 Import ListNotations.
 Open Scope Z_scope.
-Require Import MW.Ledger.Model MW.Ledger.Spec MW.Ledger.Run MW.Ledger.Pending MW.Ledger.PendingProofs.
-Require Import MW.Ledger.PendingProofs2 MW.Ledger.PendingProofs3.
+Require Import MW.Ledger.Model MW.Ledger.Spec MW.Ledger.Run MW.Ledger.WF MW.Ledger.Pending MW.Ledger.PendingProofs.
+Require Import MW.Ledger.PendingProofs2 MW.Ledger.PendingProofs3 MW.Ledger.PendingProofs4.
 
 (* ---- flagged, not reused *)
 
@@ -342,7 +343,9 @@ Print Assumptions C09_registered_complete_credits.
    pending transactions outside [confirmed]); X is registered under none of its inputs; an input only X was
    registered under is not flagged; nothing was added to the pending buckets.
    The relevant transaction M of the block and the wallet coin it spends appear as the record r filterBlock
-   makes for M and its recognised input ri (ri_prev ri is the outpoint). *)
+   makes for M and its recognised input ri (ri_prev ri is the outpoint).  The form without records ("M spends
+   the outpoint of a credit of the store") is C09_conflict_on_credit_vanishes below, by the bridge
+   C09_spend_of_credit_recognised; descendants of any depth: C09_conflict_full_descendants. *)
 Theorem C09_conflict_vanishes_history :
   forall p a3fix g h b, powners_before_seen g h -> seen_ids_agree g (h ++ [PvProcess b]) ->
     let q := prun p a3fix g h in
@@ -526,3 +529,250 @@ Example C09_example_reorg_after :
   tx_recorded s 10%N = true /\
   map (fun r => (g_tx r, g_vout r, g_height r, g_withdrawn r)) (ps_game s) = [(10%N, 0%N, 4, false)].
 Proof. vm_compute. repeat split; try reflexivity. tauto. Qed.
+
+(* ================================================================ the conflict clause as the property speaks it *)
+
+(* ---- "a conflicting transaction M confirms": M spends a coin of the store *)
+
+(* the bridge from the coin to the record: in every state a well-formed history reaches, when filterBlock of an
+   announced block succeeds, every non-coinbase transaction M of the block that has among its inputs the outpoint
+   of a credit c of the store gets a record, and the record has a recognised input for that outpoint *)
+Theorem C09_spend_of_credit_recognised :
+  forall p a3fix g h b, wf_phistory g h -> powners_before_seen g h -> seen_ids_agree g (h ++ [PvProcess b]) ->
+    let q := prun p a3fix g h in
+    let s := h_store (q_h q) in
+    let own := own_of (q_own q) in
+    forall recs,
+      filter_block_txs own (credits (ps_w s)) (lookup_pending (q_node q) (ps_unmined s)) [] (b_txs b) = Ok recs ->
+      forall M c, In M (b_txs b) -> t_cb M = false -> In c (credits (ps_w s)) -> In (credit_op c) (t_ins M) ->
+        exists r ri, In r recs /\ rr_tx r = M /\ In ri (rr_ins r) /\ ri_prev ri = credit_op c.
+Proof. exact spend_of_credit_recognised. Qed.
+Print Assumptions C09_spend_of_credit_recognised.
+
+(* no records, no recognised inputs, no index in the premises: processConnectedBlock of a block b extending the
+   tip succeeds in a reachable state s; a non-coinbase M of b spends the outpoint of a credit c of the store that
+   the readable pending X spends too; X is not a transaction of b.  Then X is not pending afterwards, nor are its
+   registered descendants through transactions that are not in b (all of them: C09_conflict_full_descendants
+   below), X is registered under none of its inputs, an input only X was registered under is not flagged, and
+   nothing was added to the pending buckets ([vanished]) *)
+Theorem C09_conflict_on_credit_vanishes :
+  forall p a3fix g h b, wf_phistory g h -> powners_before_seen g h -> seen_ids_agree g (h ++ [PvProcess b]) ->
+    let q := prun p a3fix g h in
+    let s := h_store (q_h q) in
+    let own := own_of (q_own q) in
+    forall hs', (snd (tip (ps_w s)) =? b_prev b)%N = true ->
+      pprocess p a3fix own (q_node q) (q_h q) b = POk hs' ->
+      forall M c X tX, In M (b_txs b) -> t_cb M = false -> In c (credits (ps_w s)) -> In (credit_op c) (t_ins M) ->
+        pend s X = Some (USer tX) -> In (credit_op c) (t_ins tX) -> ~ In X (map t_id (b_txs b)) ->
+        vanished s (h_store hs') (fun k => In k (map t_id (b_txs b))) X tX.
+Proof. exact conflict_on_credit_vanishes. Qed.
+Print Assumptions C09_conflict_on_credit_vanishes.
+
+(* "the coins it held are free again" without the index: an input of X that no other readable pending
+   transaction of s spends is not flagged after the block *)
+Theorem C09_conflict_on_credit_frees :
+  forall p g h b, wf_phistory g h -> powners_before_seen g h -> seen_ids_agree g (h ++ [PvProcess b]) ->
+    let q := prun p true g h in
+    let s := h_store (q_h q) in
+    let own := own_of (q_own q) in
+    forall hs', (snd (tip (ps_w s)) =? b_prev b)%N = true ->
+      pprocess p true own (q_node q) (q_h q) b = POk hs' ->
+      forall M c X tX, In M (b_txs b) -> t_cb M = false -> In c (credits (ps_w s)) -> In (credit_op c) (t_ins M) ->
+        pend s X = Some (USer tX) -> In (credit_op c) (t_ins tX) -> ~ In X (map t_id (b_txs b)) ->
+        forall o, In o (t_ins tX) -> (forall Y tY, pend s Y = Some (USer tY) -> In o (t_ins tY) -> Y = X) ->
+          spent_by_unmined (h_store hs') o = false.
+Proof. exact conflict_on_credit_frees. Qed.
+Print Assumptions C09_conflict_on_credit_frees.
+
+(* whatever IS flagged after the block is spent by a readable transaction that was pending before and still is *)
+Theorem C09_still_flagged_still_spent :
+  forall p g h b, powners_before_seen g h -> seen_ids_agree g (h ++ [PvProcess b]) ->
+    let q := prun p true g h in
+    let s := h_store (q_h q) in
+    let own := own_of (q_own q) in
+    forall hs', (snd (tip (ps_w s)) =? b_prev b)%N = true ->
+      pprocess p true own (q_node q) (q_h q) b = POk hs' ->
+      forall o, spent_by_unmined (h_store hs') o = true ->
+        exists Y tY, pend (h_store hs') Y = Some (USer tY) /\ In o (t_ins tY) /\ pend s Y = Some (USer tY).
+Proof. exact still_flagged_still_spent. Qed.
+Print Assumptions C09_still_flagged_still_spent.
+
+(* ---- "it and its unconfirmed descendants vanish": descendants of any depth *)
+
+(* The node's chain is well formed (wf_phistory for the history including the announcement).  Same situation.
+   (1) No registered descendant of X, of any depth ([desc]), is a transaction of b: the node's chain would contain X
+       (a well-formed chain contains the previous transaction of every input) next to M, spending one output twice.
+       So the case "a transaction confirms whose ancestor was conflicted away" does not arise with a valid block.
+   (2) Every registered descendant of X has left the pending set.
+   (3) So has every pending transaction that spends, through any number of pending transactions, a wallet output
+       of X ([wdesc]: no index in the statement). *)
+Theorem C09_conflict_full_descendants :
+  forall p g h b, wf_phistory g (h ++ [PvProcess b]) -> powners_before_seen g h -> seen_ids_agree g (h ++ [PvProcess b]) ->
+    let q := prun p true g h in
+    let s := h_store (q_h q) in
+    let own := own_of (q_own q) in
+    forall hs', (snd (tip (ps_w s)) =? b_prev b)%N = true ->
+      pprocess p true own (q_node q) (q_h q) b = POk hs' ->
+      forall M c X tX, In M (b_txs b) -> t_cb M = false -> In c (credits (ps_w s)) -> In (credit_op c) (t_ins M) ->
+        pend s X = Some (USer tX) -> In (credit_op c) (t_ins tX) -> ~ In X (map t_id (b_txs b)) ->
+        (forall Y, desc s X Y -> ~ In Y (map t_id (b_txs b))) /\
+        (forall D, desc s X D -> pend (h_store hs') D = None) /\
+        (forall D, wdesc own s X D -> pend (h_store hs') D = None).
+Proof. exact conflict_full_descendants_vanish. Qed.
+Print Assumptions C09_conflict_full_descendants.
+
+(* readable pending transactions are never coinbases, in any state of any history *)
+Theorem C09_pending_not_coinbase :
+  forall p a3fix g h X tX, pend (h_store (q_h (prun p a3fix g h))) X = Some (USer tX) -> t_cb tX = false.
+Proof. exact prun_ncb. Qed.
+Print Assumptions C09_pending_not_coinbase.
+
+(* what the model does with a block that is NOT valid in this way (t13 in the block, its parent t10 conflicted by
+   t11 of the same block) depends on the order of the block's transactions: the pending child t14 of t13 is removed
+   (t11 first) or kept (t13 first); the node's chain is not well formed *)
+Theorem C09_invalid_block_order_dependent :
+  let s1 := h_store (q_h (prun BadBlock.p true BadBlock.g (BadBlock.evs [BadBlock.t11; BadBlock.t13]))) in
+  let s2 := h_store (q_h (prun BadBlock.p true BadBlock.g (BadBlock.evs [BadBlock.t13; BadBlock.t11]))) in
+  (tx_recorded s1 13%N = true /\ ps_unmined s1 = [] /\ ps_uinputs s1 = []) /\
+  (tx_recorded s2 13%N = true /\ read_unmined s2 14%N = RdOk BadBlock.t14 /\ read_unmined s2 10%N = RdNone /\
+   spent_by_unmined s2 (13, 0)%N = true) /\
+  ~ wf_chain (q_node (prun BadBlock.p true BadBlock.g (BadBlock.evs [BadBlock.t11; BadBlock.t13]))).
+Proof. exact invalid_block_order_dependent. Qed.
+Print Assumptions C09_invalid_block_order_dependent.
+
+(* ---- the reorganisation as one statement *)
+
+(* processConnectedBlock of a block that does not extend the wallet's tip: rollback to the fork, then the blocks of
+   the new branch, one commit.  In the final state no readable pending transaction spends a credit that is spent
+   above the fork, i.e. by a transaction of the new branch: the pending set is conflict-free with respect to the
+   wallet coins the new chain spends. *)
+Theorem C09_reorg_conflict_free :
+  forall p a3fix g h b, powners_before_seen g h -> seen_ids_agree g (h ++ [PvProcess b]) ->
+    let q := prun p a3fix g h in
+    let s := h_store (q_h q) in
+    let own := own_of (q_own q) in
+    forall hs' fork bs, (snd (tip (ps_w s)) =? b_prev b)%N = false ->
+      collect (q_node q) (ps_w s) (S (Z.to_nat (b_height b))) b [] = Some (fork, bs) ->
+      pprocess p a3fix own (q_node q) (q_h q) b = POk hs' ->
+      forall X tX c m i hm, pend (h_store hs') X = Some (USer tX) -> In c (credits (ps_w (h_store hs'))) ->
+        c_spent c = Some (m, i, hm) -> fork < hm -> ~ In (credit_op c) (t_ins tX).
+Proof. exact reorg_conflict_free. Qed.
+Print Assumptions C09_reorg_conflict_free.
+
+(* any successful processConnectedBlock, extending or reorganising: a spent credit of the final ledger that a
+   readable pending transaction of the final state spends was in the ledger before, with the same mark *)
+Theorem C09_process_conflict_free :
+  forall p a3fix g h b, powners_before_seen g h -> seen_ids_agree g (h ++ [PvProcess b]) ->
+    let q := prun p a3fix g h in
+    let s := h_store (q_h q) in
+    let own := own_of (q_own q) in
+    forall hs', pprocess p a3fix own (q_node q) (q_h q) b = POk hs' ->
+      forall X tX c m i hm, pend (h_store hs') X = Some (USer tX) -> In c (credits (ps_w (h_store hs'))) ->
+        c_spent c = Some (m, i, hm) -> In (credit_op c) (t_ins tX) -> In c (credits (ps_w s)).
+Proof. exact extend_conflict_free. Qed.
+Print Assumptions C09_process_conflict_free.
+
+(* the same from any state satisfying the invariant [sinv], with the bound for the reorganising case *)
+Theorem C09_process_conflict_free_inv :
+  forall S p a3fix own n hs b hs',
+    ids_agree_on S -> node_in S n -> (forall t, In t (b_txs b) -> In t S) -> sinv S own (h_store hs) ->
+    pprocess p a3fix own n hs b = POk hs' ->
+    forall X tX c m i hm, pend (h_store hs') X = Some (USer tX) -> In c (credits (ps_w (h_store hs'))) ->
+      c_spent c = Some (m, i, hm) -> In (credit_op c) (t_ins tX) ->
+      In c (credits (ps_w (h_store hs))) /\
+      ((snd (tip (ps_w (h_store hs))) =? b_prev b)%N = false ->
+       forall fork bs, collect n (ps_w (h_store hs)) (Datatypes.S (Z.to_nat (b_height b))) b [] = Some (fork, bs) -> hm <= fork).
+Proof. exact pprocess_conflict_free. Qed.
+Print Assumptions C09_process_conflict_free_inv.
+
+(* "was in the ledger before" cannot be dropped: filterTx for an unconfirmed transaction does not look at the
+   spent mark; a transaction delivered although it spends a coin the wallet's chain has spent is stored and stays
+   pending (PendingProofs4.StaleConflict; a node does not relay such a transaction while the spender is on its chain) *)
+Theorem C09_pending_on_spent_coin_reachable :
+  exists p g h X tX c,
+    wf_phistory g h /\ powners_before_seen g h /\ seen_ids_agree g h /\
+    let s := h_store (q_h (prun p true g h)) in
+    pend s X = Some (USer tX) /\ In c (credits (ps_w s)) /\ c_spent c <> None /\ In (credit_op c) (t_ins tX).
+Proof. exact pending_on_spent_coin_reachable. Qed.
+Print Assumptions C09_pending_on_spent_coin_reachable.
+
+(* ---- not vacuous *)
+
+(* t10 (spends (1,0), pays the wallet (10,0)), t13 (spends (10,0), pays the wallet), t14 (spends (13,0)) are pending;
+   b3' with t11, which spends (1,0), is announced *)
+Module ExD.
+  Definition t13 : tx := {| t_id := 13; t_cb := false; t_ins := [(10, 0)%N]; t_outs := [ {| o_sh := 1; o_val := 3; o_class := CStd |} ] |}.
+  Definition t14 : tx := {| t_id := 14; t_cb := false; t_ins := [(13, 0)%N]; t_outs := [ {| o_sh := 9; o_val := 3; o_class := CStd |} ] |}.
+  Definition before : list pevent := Ex.pre ++ [PvReceive t13; PvReceive t14; PvAttach Ex.b3'].
+End ExD.
+
+(* the hypotheses of C09_conflict_on_credit_vanishes and C09_conflict_full_descendants hold (M = t11, X = 10,
+   c the credit (1,0)), t14 is a descendant of t10 through wallet outputs, and after the block nothing is pending *)
+Example C09_example_descendants :
+  let q := prun Ex.p true Ex.g ExD.before in
+  let s := h_store (q_h q) in
+  let own := own_of (q_own q) in
+  wf_phistory Ex.g (ExD.before ++ [PvProcess Ex.b3']) /\ powners_before_seen Ex.g ExD.before /\
+  seen_ids_agree Ex.g (ExD.before ++ [PvProcess Ex.b3']) /\
+  (snd (tip (ps_w s)) =? b_prev Ex.b3')%N = true /\
+  (exists hs', pprocess Ex.p true own (q_node q) (q_h q) Ex.b3' = POk hs' /\
+               ps_unmined (h_store hs') = [] /\ ps_uinputs (h_store hs') = [] /\ ps_ucredits (h_store hs') = []) /\
+  In Ex.t11 (b_txs Ex.b3') /\ t_cb Ex.t11 = false /\
+  (exists c, In c (credits (ps_w s)) /\ In (credit_op c) (t_ins Ex.t11) /\ In (credit_op c) (t_ins Ex.t10)) /\
+  pend s 10%N = Some (USer Ex.t10) /\ ~ In 10%N (map t_id (b_txs Ex.b3')) /\
+  wdesc own s 10%N 14%N.
+Proof.
+  cbv zeta.
+  split; [apply wf_phistory_b_sound; vm_compute; reflexivity|].
+  split; [apply powners_before_seen_b_sound; vm_compute; reflexivity|].
+  split; [apply seen_ids_agree_b_sound; vm_compute; reflexivity|].
+  split; [vm_compute; reflexivity|].
+  split; [eexists; split; [vm_compute; reflexivity|]; vm_compute; repeat split; reflexivity|].
+  split; [right; left; reflexivity|]. split; [reflexivity|].
+  split.
+  { exists {| c_tx := 1; c_vout := 0; c_height := 1; c_bid := 1; c_amount := 5; c_sh := 1; c_wallet := 1;
+              c_class := CStd; c_maturity := 1; c_spent := None |}.
+    split; [vm_compute; left; reflexivity|]. split; left; reflexivity. }
+  split; [vm_compute; reflexivity|].
+  split; [vm_compute; intros [H|[H|[]]]; discriminate H|].
+  apply (wdesc_step _ _ 10%N 13%N 14%N).
+  - apply (wdesc_child _ _ 10%N Ex.t10 13%N ExD.t13 0%N); [vm_compute; reflexivity|vm_compute; reflexivity|left; reflexivity|].
+    eexists. split; [reflexivity|]. split; [discriminate|vm_compute; discriminate].
+  - apply (wdesc_child _ _ 13%N ExD.t13 14%N ExD.t14 0%N); [vm_compute; reflexivity|vm_compute; reflexivity|left; reflexivity|].
+    eexists. split; [reflexivity|]. split; [discriminate|vm_compute; discriminate].
+Qed.
+
+(* a reorganisation: t10 pending; the wallet follows b3a (nothing relevant); the node switches to b3' (with t11, which
+   spends (1,0) like t10) and b4n; b4n is announced: fork at height 2, b3a rolled back, b3' and b4n connected *)
+Module ExG.
+  Definition b3a : block := {| b_id := 8; b_prev := 2; b_height := 3; b_txs := [Ex.cb 8] |}.
+  Definition b4n : block := {| b_id := 9; b_prev := 4; b_height := 4; b_txs := [Ex.cb 9] |}.
+  Definition before : list pevent :=
+    Ex.pre ++ [PvAttach b3a; PvProcess b3a; PvDetach; PvAttach Ex.b3'; PvAttach b4n].
+End ExG.
+
+Example C09_example_reorg_conflict :
+  let q := prun Ex.p true Ex.g ExG.before in
+  let s := h_store (q_h q) in
+  let own := own_of (q_own q) in
+  powners_before_seen Ex.g ExG.before /\ seen_ids_agree Ex.g (ExG.before ++ [PvProcess ExG.b4n]) /\
+  wf_phistory Ex.g (ExG.before ++ [PvProcess ExG.b4n]) /\
+  read_unmined s 10%N = RdOk Ex.t10 /\ spent_by_unmined s (1, 0)%N = true /\
+  (snd (tip (ps_w s)) =? b_prev ExG.b4n)%N = false /\
+  collect (q_node q) (ps_w s) (S (Z.to_nat (b_height ExG.b4n))) ExG.b4n [] = Some (2, [Ex.b3'; ExG.b4n]) /\
+  exists hs', pprocess Ex.p true own (q_node q) (q_h q) ExG.b4n = POk hs' /\
+    read_unmined (h_store hs') 10%N = RdNone /\ ps_uinputs (h_store hs') = [] /\ ps_ucredits (h_store hs') = [] /\
+    exists c, In c (credits (ps_w (h_store hs'))) /\ credit_op c = (1, 0)%N /\ c_spent c = Some (11%N, 0%N, 3).
+Proof.
+  cbv zeta.
+  split; [apply powners_before_seen_b_sound; vm_compute; reflexivity|].
+  split; [apply seen_ids_agree_b_sound; vm_compute; reflexivity|].
+  split; [apply wf_phistory_b_sound; vm_compute; reflexivity|].
+  split; [vm_compute; reflexivity|]. split; [vm_compute; reflexivity|]. split; [vm_compute; reflexivity|].
+  split; [vm_compute; reflexivity|].
+  eexists. split; [vm_compute; reflexivity|]. split; [vm_compute; reflexivity|]. split; [vm_compute; reflexivity|].
+  split; [vm_compute; reflexivity|].
+  exists {| c_tx := 1; c_vout := 0; c_height := 1; c_bid := 1; c_amount := 5; c_sh := 1; c_wallet := 1;
+            c_class := CStd; c_maturity := 1; c_spent := Some (11%N, 0%N, 3) |}.
+  split; [vm_compute; left; reflexivity|]. split; reflexivity.
+Qed.
